@@ -34,6 +34,13 @@ def templates(rng):
         "let A := 1, 2; let B := A 10 add, A 20 add; A B", "let add := 5; add", "let A := 1; if (A 1 ?eq) then (A 1 add) else (A)",
         "E (|A| E (|B| E (|C| A B C)))", "{{{7}}} (|F| F (|G| G (|H| H)))", "let F := {1, 2}; [F]", "?{1} (|F| F)",
         "let X := 3; {X} (|F| let X2 := 4; F X2)", "let A := 1; {A} {A} (|F G| F G add)",
+        # a builtin word's name bound after the word was used / after a block was compiled in the scope; names
+        # spelt like the ones the documentation uses for the hidden operands of infix operators
+        '[3, 4] let F := {1}; let length := 10; length', '[3, 4] length let length := 10; length', 'let F := {length}; [1, 2] let length := 7; length F',
+        '[3, 4] (length, 1) let length := 10; length', '[5] elem pos let pos := 5; pos', '"a" let G := {dup}; let dup := "n"; dup G',
+        '[1] (let length := 3; length) length', 'let add := 5; 1 2 add', '1 2 add let add := 5; add', '{add} (|F| let add := 5; 1 add 2 F)',
+        'let .tmp1 := 1; ?(2 != .tmp1) .tmp1', 'let .tmp1 := 1; let .tmp2 := 2; (.tmp2 == 2) (.tmp1 == 1) .tmp1 .tmp2', 'let .tmp1 := 1; {(2 == .tmp1)} apply',
+        'let .tmp1 := E; (E == .tmp1)', 'let .tmp2 := 1; (.tmp2 == (.tmp2 1 add))', '(|.tmp1| (1 < .tmp1) .tmp1)', 'let _a := 1; let .a := 2; (_a < .a) _a .a',
         # names across the splices of one format string (plain context, resolved last to first)
         '5 "%( A %)%( let A := 1; A %)"', 'let A := 5; "%( A %)%( let B := A; B %)"', '5 "%( A B add %)-%( let A := 1; A %)-%( let B := 2; B %)"',
         '5 "%( let A := 1; A %)" A', '5 "%( let A := 1; %)%( A %)"', '5 "%( let A := 1; A %)%( let A := 2; A %)"',
@@ -142,6 +149,14 @@ def run(ctx):
             for op, w in (("==", "?eq"), ("<", "?lt"), (">=", "?ge")) if quick else (("==", "?eq"), ("!=", "?ne"), ("<", "?lt"), (">", "?gt"), ("<=", "?le"), (">=", "?ge")):
                 for pre, post in (("let T := 5; (5, 7) ", ""), ("let T := 7; {", "} apply T"), ("let T := 5; [", ", T]")):
                     ipairs.append(("%s(%s %s %s)%s" % (pre, A, op, B, post), "%s?(let X1 := %s; let X2 := %s; X1 X2 %s)%s" % (pre, A, B, w, post)))
+    # ... and the user's own names may be spelt like anything, also like the names the documentation gives the
+    # hidden operands
+    DOTTED = [".tmp1", ".tmp2", "(.tmp1 2 add)", "{.tmp1} apply", "(.tmp2 .tmp1 sub)", "5", "(let .tmp3 := .tmp2; .tmp3)", "{.tmp2 {.tmp1} apply add} apply"]
+    for A in DOTTED:
+        for B in DOTTED:
+            for op, w in (("==", "?eq"), ("<", "?lt"), ("!=", "?ne")):
+                ipairs.append(("let .tmp1 := 5; let .tmp2 := 7; (5, 7) (%s %s %s)" % (A, op, B),
+                               "let .tmp1 := 5; let .tmp2 := 7; (5, 7) ?(let X1 := %s; let X2 := %s; X1 X2 %s)" % (A, B, w)))
     progs += [x for pr in ipairs for x in pr]
     progs = list(dict.fromkeys(progs))
 
